@@ -28,14 +28,15 @@ class C20:
     impl_script = 'impl_cache.py'
     rule = ("random histories over 1-4 keys and a 3-value alphabet: inserts under full / partial / overwriting bindings, "
             "coverage checks, retrievals, clears (plus a malformed stream: empty bindings and lookups, non-key ids, compared with "
-            "the model only); thorough tier adds every history of <= 3 operations over 2 keys and 2 values; a case is non-trivial "
+            "the model only); 15 % of the histories follow the PROTOCOL of a cached operator whose rows bind every key (check; covered -> "
+            "retrieve; otherwise insert every agreeing row) - no mixed level can arise there; thorough tier adds every history of <= 3 operations over 2 keys and 2 values; a case is non-trivial "
             "when at least one retrieval returns an entry or one check succeeds; distinct by hash of the history")
     explanation = ("C20_check / C20_clear are proved for all histories; retrieval completeness is refuted in Coq (C20_retrieve_refuted) "
                    "and reported as known finding C20-wildcard-preference; the C-model is tied to cache_data.py by comparing the "
                    "result of every operation (exact sequences, including dict order) with the model's")
 
     def budget(self, tier):
-        return {'quick': 600, 'thorough': 12000, 'search': 1}.get(tier, 600)
+        return {'quick': 1000, 'thorough': 15000, 'search': 1}.get(tier, 1000)
 
     def __init__(self):
         self._exh = None
@@ -63,6 +64,10 @@ class C20:
                 self._exh = self.exhaustive()
             if i < len(self._exh):
                 return self._exh[i]
+        if rng.random() < 0.15:
+            return self.gen_protocol(rng)
+        if rng.random() < 0.15:
+            return self.gen_subsumption(rng)
         nk = rng.randint(1, 4)
         keys = sorted(rng.sample(range(1, 7), nk))
         malformed = rng.random() < 0.12
@@ -93,14 +98,81 @@ class C20:
                         if k not in dict(a) and rng.random() < 0.5:
                             a.append((k, rng.randint(0, 2)))
                 ops.append(['chk', a])
-            elif r < 0.95:
+            elif r < 0.92:
                 a = asg(0.5) if rng.random() < 0.8 or malformed else []
                 ops.append(['ret', a])
             else:
+                last = stored[-1] if stored else None
                 ops.append(['clr'])
                 stored = []
+                if last and rng.random() < 0.7:
+                    # right after clearing: the binding inserted last before it (or one that differs in its last key only) again
+                    a = list(last)
+                    if rng.random() < 0.5:
+                        k0 = max(k for k, _ in a)
+                        a = [(k, v if k != k0 else rng.randint(0, 2)) for k, v in a]
+                    stored.append(a)
+                    ops.append(['ins', a, rng.randint(0, 9)])
+                    ops.append([rng.choice(['ret', 'chk']), list(a)])
         ops.append(['ret', [] if rng.random() < 0.5 else asg(0.4)])
         return dict(keys=keys, ops=ops)
+
+    def gen_subsumption(self, rng):
+        """bindings that contain one another, inserted in either order, then coverage checks and retrievals of FULLY bound lookups
+        that extend the general binding and agree / disagree with the specific one"""
+        nk = rng.randint(2, 4)
+        keys = sorted(rng.sample(range(1, 7), nk))
+        ops = []
+        for _ in range(rng.randint(1, 3)):
+            spec_keys = rng.sample(keys, rng.randint(2, nk))
+            specific = {k: rng.randint(0, 2) for k in spec_keys}
+            general = {k: specific[k] for k in rng.sample(spec_keys, rng.randint(1, len(spec_keys) - 1))}
+            pair = [specific, general]
+            rng.shuffle(pair)
+            for b in pair:
+                a = list(b.items())
+                rng.shuffle(a)
+                ops.append(['ins', a, rng.randint(0, 9)])
+            for _ in range(rng.randint(1, 3)):
+                look = {k: rng.randint(0, 2) for k in keys}
+                look.update(general)
+                if rng.random() < 0.4:
+                    look.update(specific)
+                if rng.random() < 0.3:
+                    del look[rng.choice([k for k in keys if k not in general] or keys)]
+                a = list(look.items())
+                rng.shuffle(a)
+                ops.append([rng.choice(['chk', 'chk', 'ret']), a])
+        return dict(keys=keys, ops=ops)
+
+    def gen_protocol(self, rng):
+        """the way every cached operator of symbolic.py uses the index (C05_indexed_full_rows): an operator with a fixed relation of
+        rows that bind EVERY key; for each lookup: coverage check; covered -> retrieve; otherwise store every row that agrees with the
+        lookup (and retrieve, to see that all of them come back).  No row leaves a key open, so no level of the index is mixed."""
+        import itertools
+        nk = rng.randint(1, 3)
+        keys = sorted(rng.sample(range(1, 7), nk))
+        allrows = list(itertools.product(range(3), repeat=nk))
+        rel = {r: rng.randint(0, 1) for r in rng.sample(allrows, rng.randint(1, min(6, len(allrows))))}
+        ops, stored = [], []
+        for _ in range(rng.randint(2, 7)):
+            L = {k: rng.randint(0, 2) for k in keys if rng.random() < 0.6}
+            if not L:
+                L = {rng.choice(keys): rng.randint(0, 2)}
+            look = list(L.items())
+            rng.shuffle(look)
+            ops.append(['chk', look])
+            if any(all(L.get(k) == v for k, v in zip(keys, r)) for r in stored):
+                ops.append(['ret', look])
+            else:
+                rows = [r for r in rel if all(k not in L or L[k] == v for k, v in zip(keys, r))]
+                for r in rows:
+                    a = list(zip(keys, r))
+                    rng.shuffle(a)
+                    ops.append(['ins', a, rel[r]])
+                    stored.append(r)
+                ops.append(['ret', look])
+        return dict(keys=keys, ops=ops, protocol=True)
 
     def to_coq(self, n, case):
         ops = []
@@ -162,6 +234,9 @@ class C20:
         d['retrievals_nonempty'] = sum(1 for o in io['obs'] if o.startswith('[') and o != '[]')
         d['checks_true'] = sum(1 for o in io['obs'] if o == 'T')
         d['retrievals_on_mixed_level'] = sum(1 for m in io['mixed'] if m)
+        if case.get('protocol'):
+            d['protocol_histories_full_rows'] = 1
+            d['protocol_retrievals_on_mixed_level'] = d['retrievals_on_mixed_level']      # must stay 0
         return d
 
     def shrink(self, case):
